@@ -41,6 +41,19 @@ func (st *concState) counts(onlyDone bool) map[uint32]int {
 func (w *World) takeSnapshot(healthy bool) {
 	st := w.conc
 	s := &snapRec{file: NewSimFile(), ack: st.counts(true), applied0: st.counts(false)}
+	if NewRng(w.cs.Seed, uint64(w.cs.Run), uint64(len(st.snaps)), 107).Chance(0.3) {
+		// fault "slow destination": the snapshotting thread yields inside (the first few of) its
+		// writes, holding whatever the library holds at that moment (own PRNG stream)
+		slow := 12
+		sr := NewRng(w.cs.Seed, uint64(w.cs.Run), uint64(len(st.snaps)), 108)
+		s.file.OnWrite = func() {
+			if slow > 0 && w.sim != nil && w.sim.cur != nil && sr.Chance(0.4) {
+				slow--
+				w.stats.fault("slow-snapshot-destination")
+				w.sim.Yield(ptDiskIO)
+			}
+		}
+	}
 	// a Snapshot that starts while another call has its recorder installed is refused (that
 	// is the library's contract for overlapping snapshots); the recorder is claimed right at
 	// the start of the call, before its first yield
